@@ -122,8 +122,7 @@ def midpoint_literal(r, dbl):
     if dbl:
         bits = (r.randrange(1023 - 150, 1023 + 150) << 52) | r.getrandbits(52)
         if r.random() < 0.2:
-            bits |= (1 << 52) - 1 if r.random() < 0.5 else 0
-            bits &= ~((1 << 52) - 1) | ((1 << 52) - 1 if bits & 1 else 0)
+            bits = (bits & ~((1 << 52) - 1)) | r.choice((0, 1, (1 << 52) - 2, (1 << 52) - 1, 1 << 51))
         a = struct.unpack("<d", struct.pack("<Q", bits))[0]
         b = struct.unpack("<d", struct.pack("<Q", bits + 1))[0]
     else:
